@@ -145,16 +145,28 @@ class Ctx:
             bad.append('_CoqProject: forbidden flag')
         return self.obligation('gate:no-admitted-no-axioms', not bad, '; '.join(bad[:10]))
 
-    def ensure_theories(self, targets=None, timeout=3000):
-        """(Re)build the hand-written development; full .vo builds under a file lock."""
+    def ensure_theories(self, targets=None, timeout=3000, extra_dirs=()):
+        """(Re)build the hand-written development needed by this property; full .vo builds under a file
+        lock.  Only theories/Base, theories/Wave, the directories of the targets and extra_dirs are put
+        in the per-property project, so unrelated files cannot break this build."""
+        os.makedirs(os.path.join(VERIF, 'build'), exist_ok=True)
         lock = open(os.path.join(VERIF, 'build', '.coq.lock'), 'w')
         fcntl.flock(lock, fcntl.LOCK_EX)
         try:
-            rc, out = sh('./mkproject.sh', cwd=COQ, timeout=120)
+            dirs = []
+            for t in (targets or []):
+                parts = t.split('/')
+                if len(parts) >= 3 and parts[1] not in dirs:
+                    dirs.append(parts[1])
+            dirs += [d for d in extra_dirs if d not in dirs]
+            if not dirs:
+                dirs = [self.prop]
+            tag = dirs[0]
+            rc, out = sh(['./mkproject.sh'] + dirs, cwd=COQ, timeout=120)
             if rc != 0:
                 return self.obligation('coq:makefile', False, out)
             tg = ' '.join(targets) if targets else ''
-            rc, out = sh('timeout %d make -j%d %s 2>&1 | tail -40' % (timeout, NCPU, tg), cwd=COQ, timeout=timeout + 30)
+            rc, out = sh('timeout %d make -f Makefile.%s -j%d %s 2>&1 | tail -40' % (timeout, tag, NCPU, tg), cwd=COQ, timeout=timeout + 30)
             ok = rc == 0 and 'Error' not in out
             return self.obligation('coq:build-theories', ok, out)
         finally:
